@@ -25,6 +25,7 @@ BoolT == {TRUE}
 
 BootNone == {}
 Boot1 == {{1}, {}}
+Boot1only == {{1}}
 Boot2 == {{2}}
 Boot12 == {{1}, {2}, {1, 2}, {}}
 
